@@ -22,9 +22,12 @@ def run(chk, tier, seed):
             poolcheck.seq_records(d, recs, (j["id"], name))
 
     poolcheck.run_pool(chk, "XrSeq", "XrSeq.cfg", "c15", n, 14, seed, kind="sequence", post=post)
+    # persistent stacks and their conversions to / from sequences (XrStack)
+    poolcheck.run_pool(chk, "XrStack", "XrStack.cfg", "c15-stack", 600 if tier == "quick" else 3000, 14, seed, kind="stack", post=post)
     poolcheck.check_seq_reprs(chk, recs, sources, "c15-repr")
     chk.cov["rule"] = ("TLC -simulate walks of the XrSeq pool machine: 12 operations per program over earlier bindings; "
-                       "non-trivial = distinct rendered program")
+                       "non-trivial = distinct rendered program; every dumped sequence representation tree is accepted by XrSeqRepr; "
+                       "XrStack walks (push, tail, head, len, to_array(_reversed), ==, hash, seq + stack, add_rev, to_stack)")
     chk.assumptions += ["infinite sequences are compared on their first 10 elements", "operations the documentation leaves "
                         "open (insert at len, to_array/reverse/negative index on infinite sequences) are not generated"]
 
